@@ -23,7 +23,7 @@ func init() { register("C18", "model_checking", checkC18) }
 
 const objectsTraceCfg = `INIT TInit
 NEXT TNext
-INVARIANTS SharingIso ObjectsCarried ScopesCarried PackageSame
+INVARIANTS SharingIso ObjectsCarried ScopesCarried PackageSame ReachCarried
 POSTCONDITION Accepted
 CHECK_DEADLOCK FALSE
 `
@@ -495,9 +495,33 @@ func checkC18(c *Ctx) {
 		}
 	}
 	items = append(items, traceItem{Key: "packages", Trace: pk.Bytes(), Events: pk.Len(), Replay: obj{"kind": "c18pkg"}})
+	// declarations removed from the tree while objects still point to them (Deferred.tla)
+	if !c18Deferred(c) {
+		return
+	}
+	for i, f := range files {
+		if len(f.Src) > 40000 || i%2 == 1 {
+			continue
+		}
+		rm := &ndjson{}
+		c18Removed(c, f.Path, f.Src, rm)
+		if rm.Len() > 0 {
+			items = append(items, traceItem{Key: f.Path + "|removed", Trace: rm.Bytes(), Events: rm.Len(), Replay: obj{"kind": "c18removed", "path": f.Path}})
+		}
+	}
+	for i, src := range c18RemovedSources {
+		rm := &ndjson{}
+		c18Removed(c, fmt.Sprintf("removed-%d", i), []byte(src), rm)
+		if rm.Len() > 0 {
+			items = append(items, traceItem{Key: fmt.Sprintf("removed-%d", i), Trace: rm.Bytes(), Events: rm.Len(), Replay: obj{"kind": "c18removed", "src": src}})
+		}
+	}
 	c.Traces(int64(len(items)))
 	validateTraces(c, "ObjectsTrace", objectsTraceCfg, items, 40, false, func(it traceItem, res *TLCResult) {
 		ev := offendingEventFull(it, res)
+		if ev == "" {
+			ev = string(bytes.SplitN(it.Trace, []byte("\n"), 2)[0]) // the first record already fails
+		}
 		var rec struct {
 			Side string `json:"side"`
 			Key  string `json:"key"`
